@@ -228,15 +228,21 @@ def drive(watch, out, rng, spec, tier):
         cuwps = [real.val(c, None) for c in (author.cuwp() for _ in range(3)) if c is not None]
         sws = [real.val(author.switch(), None) for _ in range(3)]
         if mrgn is not None:
-            m2 = step("RichMrgnEditor.add_locations", RichMrgnEditor().add_locations, locs, mrgn)
+            # the collection parameter is a Collection: hand it over as a list, a set and a tuple
+            existing = [l for l in mrgn.locations][:2]
+            step("RichMrgnEditor.add_locations (set, some already stored)", RichMrgnEditor().add_locations, set(locs + existing), mrgn)
+            step("RichMrgnEditor.add_locations (tuple)", RichMrgnEditor().add_locations, tuple(locs), mrgn)
+            m2 = step("RichMrgnEditor.add_locations", RichMrgnEditor().add_locations, locs + existing, mrgn)
             if m2 is not None:
                 step("RichMrgnEditor.add_locations (again, on its own output)", RichMrgnEditor().add_locations, locs, m2[0])
         if uprp is not None and cuwps:
-            u2 = step("RichUprpEditor.add_cuwp_slots", RichUprpEditor().add_cuwp_slots, cuwps, uprp)
+            step("RichUprpEditor.add_cuwp_slots (set, some already stored)", RichUprpEditor().add_cuwp_slots, set(cuwps + list(uprp.cuwp_slots)[:2]), uprp)
+            u2 = step("RichUprpEditor.add_cuwp_slots", RichUprpEditor().add_cuwp_slots, cuwps + list(uprp.cuwp_slots)[:1], uprp)
             if u2 is not None:
                 step("RichUprpEditor.add_cuwp_slots (again)", RichUprpEditor().add_cuwp_slots, cuwps, u2)
         if swnm is not None:
             step("RichSwnmEditor.add_switches", RichSwnmEditor().add_switches, sws, swnm)
+            step("RichSwnmEditor.add_switches (set)", RichSwnmEditor().add_switches, set(sws), swnm)
         if wav is not None:
             w2 = step("RichWavEditor.add_wav_files", RichWavEditor().add_wav_files, ["a.wav", "b.wav", "a.wav"], wav)
             if w2 is not None:
@@ -249,6 +255,7 @@ def drive(watch, out, rng, spec, tier):
         if trig is not None:
             new = [real.trigger(author.trigger()) for _ in range(2)]
             watch.remember("authored triggers", new)
+            step("RichTrigEditor.add_triggers (tuple)", RichTrigEditor.add_triggers, tuple(new), trig)
             t2 = step("RichTrigEditor.add_triggers", RichTrigEditor.add_triggers, new, trig)
             if t2 is not None:
                 more = [real.trigger(author.trigger())]
